@@ -105,14 +105,22 @@ def run(p, led, tier):
         raise ValueError(kind)
 
     LOWC = (("a", 5), ("b", 1), ("c", 0))        # c is less urgent than the owner b: it queues *behind* a displaced b
+    STALE = "stale"      # the acquirer is still in the lock's waiting list from an earlier blocked attempt (against a holder that has
+    #                      since let go, which removed the edge): the new blocked attempt must be recorded all the same
     scenarios = [("acquire free", None, False, None), ("acquire own (re-entrant)", "a", False, None), ("acquire held (blocked)", "b", False, None),
+                 ("acquire held (blocked) again, still queued from an earlier attempt whose edge is gone", "b", False, STALE),
                  ("acquire pre-emptable", "b", True, None), ("acquire pre-emptable, a lower-priority waiter queued", "b", True, LOWC)]
     for label, owner, preempt, prios in scenarios:
         bad, n = [], 0
         for g in graphs:
             def go(o):
                 it = Interp(p, o)
-                c, ctxs = setup(it, g, owner, preempt, **({"prios": prios} if prios else {}))
+                c, ctxs = setup(it, g, owner, preempt, **({"prios": prios} if prios and prios is not STALE else {}))
+                if prios is STALE:
+                    wl = c.fields["resources"]["r"].fields.get("waiting_list")
+                    if isinstance(wl, list) and all(x[0] != "a" for x in wl):
+                        wl.append(("a", ctxs["a"].fields["priority"]))
+                        wl.sort(key=lambda x: -x[1])
                 r = it.call_fi(acq, [c, ctxs["a"], "r"], {})
                 return (getattr(r, "name", repr(r)), triples(c))
             for _, (res_name, after) in explore(go, max_paths=20):
@@ -170,6 +178,55 @@ def run(p, led, tier):
             else:
                 led.ok("C15-R1", key, where(t, t.node), f"{n} cases: every edge mentioning the operation disappears, nothing else changes")
     led.extra["graphs_enumerated"] = len(graphs)
+
+    # ---------------- R3 detection has no memory: after any event, what check_deadlock() reports is what a search of the
+    # current edges reports (an answer remembered from before the event is not an answer)
+    led.rule("C15-R3", "check_deadlock() after an event reports exactly what a fresh search of the current wait-for edges reports (no remembered answer)", 1)
+    dg_cls = next((ci for lst in p.classes.values() for ci in lst if ci.name == "DependencyGraph" and ci.module.rel == "operon_ai/coordination/types.py"), None)
+    chk = p.find_method(ctrl, "check_deadlock")
+    if dg_cls is None or chk is None or "detect_cycle" not in dg_cls.methods:
+        raise AnchorError("DependencyGraph.detect_cycle / CellCycleController.check_deadlock not found")
+
+    def norm(d):
+        if d is None:
+            return None
+        cyc = d.fields.get("cycle") if isinstance(d, Obj) else None
+        return frozenset(tuple(x) for x in cyc) if isinstance(cyc, list) else repr(d)
+
+    def fresh_detect(it, c):
+        g2 = it.instantiate(dg_cls, [], {})
+        for w, lst in c.fields["dependency_graph"].fields["edges"].items():
+            g2.fields["edges"][w] = list(lst)
+        return norm(it.call_fi(dg_cls.methods["detect_cycle"], [g2], {}))
+    events3 = []
+    for label, owner, preempt, prios in scenarios:
+        events3.append((f"acquire_resource ▸ {label}", dict(owner_r=owner, preempt=preempt, **({"prios": prios} if prios and prios is not STALE else {})), lambda it, c, ctxs: it.call_fi(acq, [c, ctxs["a"], "r"], {})))
+    events3.append(("release_resource", dict(owner_r="a", preempt=False), lambda it, c, ctxs: it.call_fi(rel, [c, ctxs["a"], "r"], {})))
+    for tname in ("complete_operation", "abort_operation"):
+        t3 = p.find_method(ctrl, tname)
+        events3.append((tname, dict(owner_r="a", preempt=False), (lambda it, c, ctxs, _t=t3, _n=tname: it.call_fi(_t, [c, ctxs["a"]] + (["reason"] if _n == "abort_operation" else []), {}))))
+    bad3, n3 = [], 0
+    for label, kw, ev in events3:
+        for g in graphs:
+            if len(g) < 2:
+                continue
+            def go3(o, _kw=kw, _ev=ev, _g=g):
+                it = Interp(p, o)
+                c, ctxs = setup(it, _g, _kw["owner_r"], _kw["preempt"], **({"prios": _kw["prios"]} if "prios" in _kw else {}))
+                before = norm(it.call_fi(chk, [c], {}))
+                _ev(it, c, ctxs)
+                live = norm(it.call_fi(chk, [c], {}))
+                return before, live, fresh_detect(it, c), triples(c)
+            for _, (before, live, ref, edges_) in explore(go3, max_paths=20):
+                n3 += 1
+                if live != ref:
+                    bad3.append(f"{label}, graph {sorted(g)}: check_deadlock() reports {sorted(live) if live else live} on edges {sorted(edges_)}, a fresh search reports {sorted(ref) if ref else ref} (it reported {sorted(before) if before else before} before the event)")
+    key = "CellCycleController.check_deadlock ▸ same answer as a fresh search after every event"
+    if bad3:
+        led.fail("C15-R3", key, where(chk, chk.node), f"{len(bad3)} of {n3} cases, e.g. {bad3[0]}", path=bad3[:6],
+                 witness="W and A deadlock and a check sees it; C pre-empts the contested lock, which dissolves the cycle; the next check still reports it and the watchdog kills a victim")
+    else:
+        led.ok("C15-R3", key, where(chk, chk.node), f"{n3} cases: {len(events3)} events × every 2-edge graph, a check before and after the event")
 
     # the victim owns nothing afterwards: the controller's release-all may not abandon the remaining resources after one failed release
     from .c14 import _abandons
